@@ -92,7 +92,8 @@ URL_IN_HTML_RE = re.compile(URL_IN_HTML, re.I)
 URL_IN_HTML_BINARY_RE = re.compile(URL_IN_HTML_BINARY, re.I)
 
 QUERY_VALUE_IN_URL_TEMPLATE = r"(?:^|[?&])(%s)=([^&]+)"
-QUERY_VALUE_TEMPLATE = r"%s=([^&]+)"
+# NOTE: a query value stops at the fragment
+QUERY_VALUE_TEMPLATE = r"%s=([^&#]+)"
 
 DOMAIN_TEMPLATE = r"^(?:https?:)?(?://)?(?:\S+(?::\S*)?@)?%s(?:[:/#]|\s*$)"
 
